@@ -57,7 +57,10 @@ META = {
                     'theorems take it as the shape of the model',
                     'adaptive_sa_solver (thorough tier): purity and reproducibility only'],
     'partial': [],
-    'assumptions': ['"numerical content" of the user\'s matrix = shape, dtype, format and the represented matrix (dense, bitwise); a '
+    'assumptions': ['thresholds (strength theta, AIR theta, filter theta) are chosen off the ratios that occur in the structured test '
+                    'matrices (0.27, 0.47, 0.13, 0.29, ... instead of 0.25, 0.5, 0.1, 0.3): a connection exactly at a threshold is '
+                    'decided by rounding and may fall differently on the CSR and the BSR code path',
+                    '"numerical content" of the user\'s matrix = shape, dtype, format and the represented matrix (dense, bitwise); a '
                     'pure re-ordering of the stored index arrays (in-place sort_indices) is counted as a feature, not as a violation',
                     '"hierarchy" = A, P, R, B, BH, splitting of every level; with keep=True also AggOp / T, and the pattern of C',
                     'reuse theorems: every coarse-solver call of a solver passes the same matrix (checked per instance: the object '
@@ -343,8 +346,8 @@ def _dense_solve(A, b):
 
 
 def opts_rs(rng, tags):
-    st = pick(rng, [('classical', {'theta': 0.25}), ('classical', {'theta': 0.5, 'norm': 'min'}), ('classical', {'theta': 0.0}),
-                    'symmetric', ('symmetric', {'theta': 0.1}), None, 'evolution', 'energy_based', 'algebraic_distance', 'affinity'])
+    st = pick(rng, [('classical', {'theta': 0.27}), ('classical', {'theta': 0.47, 'norm': 'min'}), ('classical', {'theta': 0.0}),
+                    'symmetric', ('symmetric', {'theta': 0.13}), None, 'evolution', 'energy_based', 'algebraic_distance', 'affinity'])
     cf = pick(rng, [('RS', {'second_pass': False}), ('RS', {'second_pass': True}), 'PMIS', 'PMISc', 'CLJP', 'CLJPc',
                     ('PMISc', {'method': 'MIS'}), ('CLJP', {'color': True})])
     ip = pick(rng, ['classical', 'direct', ('classical', {'modified': False})])
@@ -352,12 +355,12 @@ def opts_rs(rng, tags):
 
 
 def opts_air(rng, tags):
-    st = pick(rng, [('classical', {'theta': 0.3, 'norm': 'min'}), ('classical', {'theta': 0.25}), 'symmetric', None, 'evolution'])
+    st = pick(rng, [('classical', {'theta': 0.31, 'norm': 'min'}), ('classical', {'theta': 0.27}), 'symmetric', None, 'evolution'])
     cf = pick(rng, [('RS', {'second_pass': True}), ('RS', {'second_pass': False}), 'PMIS', 'PMISc', 'CLJP', 'CLJPc'])
     ip = pick(rng, ['one_point', 'one_point', 'inject', 'classical', 'direct', ('one_point', {'by_val': True})])
-    rs = pick(rng, [('air', {'theta': 0.05, 'degree': 2}), ('air', {'theta': 0.1, 'degree': 1}), 'air',
-                    ('air', {'theta': 0.2, 'degree': 1, 'use_gmres': True, 'maxiter': 3})])
-    fo = pick(rng, [None, None, (True, 0.1), (False, 0.1), (True, 0.4), (False, 0.4), (True, 0.0), (False, 0.7)])
+    rs = pick(rng, [('air', {'theta': 0.053, 'degree': 2}), ('air', {'theta': 0.11, 'degree': 1}), 'air',
+                    ('air', {'theta': 0.21, 'degree': 1, 'use_gmres': True, 'maxiter': 3})])
+    fo = pick(rng, [None, None, (True, 0.11), (False, 0.11), (True, 0.41), (False, 0.41), (True, 0.0), (False, 0.69)])
     return {'strength': st, 'CF': cf, 'interpolation': ip, 'restrict': rs, 'filter_operator': fo}
 
 
@@ -381,11 +384,11 @@ def opts_sa(rng, tags, root=False):
     cplx = tags['complex']
     fam = tags['fam']
     sym = 'nonsymmetric' if fam == 'upwind' else pick(rng, ['hermitian', 'hermitian', 'symmetric', 'nonsymmetric'])
-    st = pick(rng, ['symmetric', ('symmetric', {'theta': 0.0}), ('symmetric', {'theta': 0.3}), 'classical',
-                    ('classical', {'theta': 0.25, 'norm': 'abs'}), 'evolution', ('evolution', {'k': 2, 'epsilon': 4.0}), None,
+    st = pick(rng, ['symmetric', ('symmetric', {'theta': 0.0}), ('symmetric', {'theta': 0.29}), ('classical', {'theta': 0.23}),
+                    ('classical', {'theta': 0.27, 'norm': 'abs'}), 'evolution', ('evolution', {'k': 2, 'epsilon': 4.0}), None,
                     'energy_based', 'algebraic_distance', 'affinity'])
     ag = pick(rng, ['standard', 'standard', 'naive', 'lloyd', ('lloyd', {'ratio': 0.3, 'maxiter': 3}), 'pairwise',
-                    ('pairwise', {'theta': 0.25, 'norm': 'min', 'matchings': 1})])
+                    ('pairwise', {'theta': 0.27, 'norm': 'min', 'matchings': 1})])
     if cplx and name_of(ag) in ('pairwise', 'lloyd'):
         ag = 'standard'
     if cplx and name_of(st) in ('affinity', 'algebraic_distance', 'energy_based'):
@@ -412,8 +415,8 @@ def opts_sa(rng, tags, root=False):
 
 
 def opts_pw(rng, tags):
-    ag = pick(rng, [('pairwise', {'theta': 0.25, 'norm': 'min', 'matchings': 2}), ('pairwise', {'theta': 0.0, 'norm': 'abs', 'matchings': 1}),
-                    ('pairwise', {'theta': 0.5, 'norm': 'min', 'matchings': 3})])
+    ag = pick(rng, [('pairwise', {'theta': 0.27, 'norm': 'min', 'matchings': 2}), ('pairwise', {'theta': 0.0, 'norm': 'abs', 'matchings': 1}),
+                    ('pairwise', {'theta': 0.47, 'norm': 'min', 'matchings': 3})])
     return {'aggregate': ag}
 
 
@@ -467,7 +470,7 @@ def gen_case(rng, quick, ctor=None, reuse=False):
             kw['aggregate'] = 'standard'
             kw['smooth'] = 'jacobi'
     if dtype == 'float32' and ctor == 'rs':
-        kw['strength'] = ('classical', {'theta': 0.25})
+        kw['strength'] = ('classical', {'theta': 0.27})
     # smoothers / coarse solver
     r = rng.random()
     if reuse or r < 0.6:
